@@ -243,6 +243,15 @@ func (r *Reader) parseWorksheets() error {
 	return nil
 }
 
+// Limits on the grid of one worksheet. Rows and columns are Excel's own limits; the cell
+// budget bounds the memory of the dense grid (a sheet addressing a single far-away cell
+// would otherwise allocate rows x columns cells).
+const (
+	maxSheetRows  = 1048576
+	maxSheetCols  = 16384
+	maxSheetCells = 5000000
+)
+
 // parseWorksheet parses a single worksheet.
 func (r *Reader) parseWorksheet(data []byte, name string, index int) (*Sheet, error) {
 	var ws worksheetXML
@@ -289,6 +298,12 @@ func (r *Reader) parseWorksheet(data []byte, name string, index int) (*Sheet, er
 				maxCol = col
 			}
 		}
+	}
+
+	// The dimensions come from the file and size the dense grid below: refuse what Excel
+	// itself could not hold, and what would need an unreasonable amount of memory.
+	if maxRow > maxSheetRows || maxCol >= maxSheetCols || maxRow*(maxCol+1) > maxSheetCells {
+		return nil, fmt.Errorf("worksheet %q is too large: %d rows x %d columns (limit: %d cells)", name, maxRow, maxCol+1, maxSheetCells)
 	}
 
 	sheet.MaxRow = maxRow - 1 // Convert to 0-indexed
